@@ -159,6 +159,8 @@ type frame struct {
 	touchedTypes map[string]bool
 	objFramed    bool
 	ghostFramed  bool
+	labels       map[string]*Env
+	callOrd      map[ssa.Instruction]string
 }
 
 func (e *Engine) ob(f *frame, kind, label string, tags []string, pc, cond string, pos token.Pos) {
@@ -464,7 +466,7 @@ func (e *Engine) exec(fn *ssa.Function, args []Val, binds []Val, pc string, heap
 
 func (e *Engine) execP(parent *frame, fn *ssa.Function, args []Val, binds []Val, pc string, heap *Heap, prefix string, top bool, depth int, con *Contract, tags, safety []string) ([]Val, string, *Heap, *frame) {
 	f := &frame{e: e, fn: fn, vals: map[ssa.Value]Val{}, pcs: map[*ssa.BasicBlock]string{}, heaps: map[*ssa.BasicBlock]*Heap{},
-		prefix: prefix, entry: heap.clone(), args: args, con: con, top: top, depth: depth, tags: tags, safety: safety, parent: parent}
+		prefix: prefix, entry: heap.clone(), args: args, con: con, top: top, depth: depth, tags: tags, safety: safety, parent: parent, labels: map[string]*Env{}}
 	for i, p := range fn.Params {
 		f.vals[p] = args[i]
 	}
